@@ -6,7 +6,19 @@
 mod util;
 
 #[cfg(kani)]
+mod c01;
+#[cfg(kani)]
+mod c02;
+#[cfg(kani)]
+mod c03;
+#[cfg(kani)]
 mod c08;
+#[cfg(kani)]
+mod c12;
+#[cfg(kani)]
+mod c13;
+#[cfg(kani)]
+mod c15;
 #[cfg(kani)]
 mod c17;
 
@@ -22,3 +34,4 @@ mod smoke {
         assert!(Span::new(a, b).len() == b - a);
     }
 }
+
